@@ -6,9 +6,13 @@
 (*                                                                         *)
 (* Script steps (one per environment / network / handler-gate action):     *)
 (*   ask(k,a,s,ctr,now)  the asker a starts Ask number k to server s       *)
-(*   enter(k,exp)        the request reaches the destination; exp = "in"   *)
-(*                       when the model hands it to a handler, "drop" when *)
-(*                       the destination is closed / busy                  *)
+(*   arrive(k,exp)       stream / mbapp: the request reaches the           *)
+(*                       destination and waits there for a ServeAsk call   *)
+(*                       (exp = "pend"; "drop" when it is closed).  In hub *)
+(*                       mode the asker itself waits in the Deliver select *)
+(*   serve(k)            the destination's application calls ServeAsk once *)
+(*                       and is handed a waiting request: any number of    *)
+(*                       asks may have arrived before anybody serves       *)
 (*   handle(k,cls)       the handler gate of k opens: it returns class cls *)
 (*   rep(k,p)            mbapp: reply part p of the answer to k reaches    *)
 (*                       the asker (parts in any order, repeatedly)        *)
@@ -50,12 +54,12 @@ Step ==
      \/ /\ HCall(k, a, s) \/ SCall(k, a, s) \/ MCall(k, a, s, ctr)
         /\ Rec([op |-> "ask", k |-> k, a |-> a, s |-> s, ctr |-> ctr, now |-> now])
         /\ burst' = IF Mode = "mbapp" /\ w <= 2 THEN [a |-> a, ctr |-> ctr, s |-> s] ELSE NoBurst
-     \/ /\ HMeet(k)
-        /\ Rec([op |-> "enter", k |-> k, exp |-> "in"])
-        /\ burst' = NoBurst
      \/ /\ SArrive(k) \/ MReqDeliver(k)
-        /\ Rec([op |-> (IF Returned(k)' /\ ~Returned(k) THEN "ret" ELSE "enter"), k |-> k,
-                exp |-> (IF hnd'[k].st = "in" /\ hnd[k].st # "in" THEN "in" ELSE "drop")])
+        /\ Rec([op |-> (IF Returned(k)' /\ ~Returned(k) THEN "ret" ELSE "arrive"), k |-> k,
+                exp |-> (IF hnd'[k].st = "pend" THEN "pend" ELSE "drop")])
+        /\ burst' = NoBurst
+     \/ /\ ServeStart(k)
+        /\ Rec([op |-> "serve", k |-> k])
         /\ burst' = NoBurst
      \/ /\ HandlerRet(k, c)
         /\ Rec([op |-> "handle", k |-> k, cls |-> c])
@@ -66,7 +70,7 @@ Step ==
      \/ /\ w <= 2 /\ Timeout(k)
         /\ Rec([op |-> "cancel", k |-> k])
         /\ burst' = NoBurst
-     \/ /\ HSelClosed(k) \/ HSelCtx(k) \/ SAbort(k) \/ SCtx(k) \/ MCtx(k)
+     \/ /\ HSelClosed(k) \/ HSelCtx(k) \/ SAbort(k) \/ SCtx(k) \/ MCtx(k) \/ SPendClosed(k) \/ MPendClosed(k)
         /\ Rec([op |-> "ret", k |-> k, exp |-> "err"])
         /\ burst' = NoBurst
      \/ /\ w = 1 /\ CloseCall(s)
